@@ -761,9 +761,16 @@ fn c04_cases(thorough: bool, v: &mut dyn FnMut(Case)) {
             for (ci, solver) in solvers.iter().enumerate() {
                 for w in [WKind::None, WKind::Ramp, WKind::ZeroAt(1), WKind::Threes, WKind::Tiny] {
                     for (level, nv) in [(0.0, 0u64), (1e-2, 2)] {
-                        for s in [1usize, 2] {
+                        // 11 and 70 right-hand sides: past the block sizes of column-blocked implementations, not multiples of 8 / 64
+                        for s in [1usize, 2, 11, 70] {
                             for (prov, par, f32_) in [(Prov::Hand, false, false), (Prov::Built, true, false), (Prov::Hand, false, true), (Prov::Built, false, false)] {
-                                if !thorough && (fi + si + ci + s + nv as usize + par as usize) % 5 != 0 {
+                                if s > 2 && (ci % 6 != 0 || si > 2 || f32_ || (s == 70 && (!thorough || w != WKind::Ramp))) {
+                                    continue;
+                                }
+                                if !thorough && s <= 2 && (fi + si + ci + s + nv as usize + par as usize) % 5 != 0 {
+                                    continue;
+                                }
+                                if !thorough && s > 2 && (fi + si + nv as usize) % 2 != 0 {
                                     continue;
                                 }
                                 let coefs: Vec<Vec<f64>> = (0..s).map(|k| cf.iter().map(|c| c * (1.0 + 0.5 * k as f64)).collect()).collect();
